@@ -343,6 +343,32 @@ def run(ctx):
                     t2, nd2 = pat_with(501, 2, 'r')
                     one_case(ctx, mon, entry, [(t, nd, 500, 500), (t2, nd2, 501, 501)], [], None, root)
                     one_case(ctx, mon, entry, [(t, nd, 500, 500)], [(t2, nd2, 501, 501)], None, root)
+            # (6) `|` characters that split nothing (inside a group, inside a bracket, escaped) are not patterns; and lists of three and
+            # more entries in which a later brace expansion still fits what the earlier entries left
+            idx += 1
+            if ctx.mine(idx):
+                with ctx.case(timeout=120, label=(entry, 'non-splitting pipes, longer lists')):
+                    quiet = [('[|]x|y[|]', {'SPLIT'}, 2, 2), ('a\\|b|c', {'SPLIT'}, 2, 2), ('[|][|][|][|]', {'SPLIT'}, 1, 1), ('a[|||]|b[|]|c', {'SPLIT'}, 3, 3)]
+                    if not entry.startswith('WcMatch'):
+                        quiet += [('@(a|b|c)', {'SPLIT', 'EXTMATCH'}, 1, 1), ('@(a|b)|+(c|d|e)', {'SPLIT', 'EXTMATCH'}, 2, 2), ('!(a|b|c|d)x', {'SPLIT', 'EXTMATCH'}, 1, 1)]
+                    for sp in quiet:
+                        for L6 in (sp[3], sp[3] + 1, sp[3] - 1, 3, 5):
+                            if L6 >= 1:
+                                one_case(ctx, mon, entry, [sp], [], L6, root)
+                                one_case(ctx, mon, entry, [('q1', set(), 1, 1), sp], [], L6 + 1, root)
+                                if not entry.startswith('WcMatch'):
+                                    one_case(ctx, mon, entry, [('q1', set(), 1, 1)], [sp], L6 + 1, root)
+                                ctx.count('non_splitting_pipe_cases')
+                    B = lambda t, n: ('%s{%s}' % (t, ','.join('v%d' % i for i in range(n))), {'BRACE'}, n, n)  # noqa: E731
+                    for lst, L6 in (([B('a', 2), ('c', set(), 1, 1), B('d', 2)], 5), ([B('a', 2), B('c', 2), B('e', 3)], 8), ([B('a', 2), B('c', 2), B('e', 3)], 7),
+                                    ([B('a', 2), B('c', 2), B('e', 3)], 6), ([B('a', 3), ('c', set(), 1, 1), ('d', set(), 1, 1), B('e', 4)], 9),
+                                    ([B('a', 300), B('c', 300), B('e', 400)], None), ([B('a', 300), B('c', 300), B('e', 401)], None),
+                                    ([('a', set(), 1, 1), ('b', set(), 1, 1), ('c', set(), 1, 1), B('d', 5)], 8)):
+                        one_case(ctx, mon, entry, lst, [], L6, root)
+                        if not entry.startswith('WcMatch') and len(lst) >= 3:
+                            one_case(ctx, mon, entry, lst[:2], lst[2:], L6, root)
+                            one_case(ctx, mon, entry, lst[:1], lst[1:], L6, root, inline=True)
+                        ctx.count('longer_list_cases')
                     one_case(ctx, mon, entry, [('{1..100000000}', {'BRACE'}, 10 ** 8, 10 ** 8)], [], None, root)
                     ctx.count('default_limit_checks', 3)
                     ctx.sample({'entry': entry, 'example': 'q{1..1001} with the limit omitted must raise; q{1..1000} must not'})
